@@ -17,6 +17,21 @@ impl TypeBinder {
         Self { pattern, witness }
     }
 
+    /// Open the binder for an introduction: the bound variable is a fresh abstract type in the
+    /// returned body, so two introductions of one binder never share a type variable.
+    pub fn open_k(
+        &self, tycker: &mut Tycker<'_>, body: TypeId, env: &TyEnv,
+    ) -> ResultKont<(Self, TypeId, TypeId)> {
+        use zydeco_utils::arena::ArenaAccess;
+
+        let kind = self.payload_kind(tycker);
+        let hint = tycker.statics.abst_hints.get(&self.witness).copied();
+        let witness: AbstId = Alloc::alloc(tycker, hint, kind, &());
+        let variable: TypeId = Alloc::alloc(tycker, witness, kind, env);
+        let body = body.subst_abst_k(tycker, (self.witness, variable))?;
+        Ok((Self { pattern: self.pattern, witness }, variable, body))
+    }
+
     pub fn domain_kind<Arena>(&self, arena: &Arena) -> KindId
     where
         Arena: AsRef<StaticsArena>,
